@@ -29,6 +29,10 @@
 #include "bloch/compiler/semantics/built_ins.hpp"
 #include "bloch/support/error/bloch_error.hpp"
 
+#ifdef BLOCH_VERIF
+#include "bloch/support/verif_hooks.hpp"
+#endif
+
 namespace bloch::runtime {
 
     using compiler::builtInGates;
@@ -1602,6 +1606,10 @@ namespace bloch::runtime {
     }
 
     void RuntimeEvaluator::exec(Statement* s) {
+#ifdef BLOCH_VERIF
+        if (bloch::verif::g_yield)
+            bloch::verif::g_yield(this, s);
+#endif
         if (m_gcRequested.load())
             runCycleCollector();
         if (!s)
